@@ -9,9 +9,25 @@ from . import common as C
 HARNESS_RE = re.compile(r"//\s*@HARNESS\s+(.*)")
 
 
-def parse_harness_file(path):
+def module_path(target_rel):
+    p = target_rel
+    if p.startswith("src/"):
+        p = p[4:]
+    p = p[:-3] if p.endswith(".rs") else p
+    parts = [x for x in p.split("/") if x]
+    if parts and parts[-1] in ("mod", "lib"):
+        parts = parts[:-1]
+    return "::".join(parts)
+
+
+def parse_harness_file(path, target_rel=None):
     """returns list of dict(id, fn, tier, kind, props, bound, timeout)"""
     out = []
+    modname = "verif_kani"
+    mm = re.search(r"mod\s+(verif_kani\w*)", open(path).read())
+    if mm:
+        modname = mm.group(1)
+    prefix = (module_path(target_rel) + "::" if target_rel and module_path(target_rel) else "") + modname + "::"
     lines = open(path).read().split("\n")
     for i, ln in enumerate(lines):
         m = HARNESS_RE.search(ln)
@@ -29,7 +45,7 @@ def parse_harness_file(path):
             raise RuntimeError("%s:%d @HARNESS without fn" % (path, i + 1))
         out.append({"id": kv.get("id", fn), "fn": fn, "tier": kv.get("tier", "quick"), "kind": kv.get("kind", "K"),
                     "props": kv.get("props", "").split(","), "bound": kv.get("bound"), "timeout": int(kv.get("timeout", "900")),
-                    "file": path})
+                    "file": path, "fq": prefix + fn})
     return out
 
 
@@ -43,8 +59,10 @@ def prepare_copy(tag, appends):
         cur = open(p).read()
         if "mod verif_kani" in cur:
             continue
+        if "#[cfg(kani)]" not in open(hfile).read():
+            raise RuntimeError("harness file %s must guard its module with #[cfg(kani)]" % hfile)
         body = open(hfile).read()
-        add = "\n#[cfg(kani)]\nmod verif_kani {\n" + body + "\n}\n"
+        add = "\n" + body + "\n"   # the harness file carries its own `#[cfg(kani)] mod verif_kani { .. }`
         with open(p, "w") as f:
             f.write(orig + add)
         new = open(p).read()
@@ -67,7 +85,7 @@ def run_harnesses(copy_dir, harnesses, jobs=16, extra_flags=()):
 
     def one(h):
         cmd = ["cargo", "kani", "--lib", "--target-dir", target, "-Z", "stubbing", "-Z", "function-contracts",
-               "--harness", h["fn"], "--exact"] + list(extra_flags)
+               "--harness", h["fq"], "--exact"] + list(extra_flags)
         t0 = time.time()
         try:
             p = subprocess.run(cmd, cwd=copy_dir, env=C.offline_env(), capture_output=True, text=True, timeout=h["timeout"])
@@ -129,16 +147,110 @@ def parse_output(out):
 
 
 def concrete_playback(copy_dir, h):
-    """re-run a failed harness with concrete playback; returns the printed unit test text (or None)"""
+    """re-run a failed harness with concrete playback; returns list of (check description, [byte vectors])
+    for the failing (non-cover) checks"""
     target = os.path.join(C.CACHE, "kani-target")
     cmd = ["cargo", "kani", "--lib", "--target-dir", target, "-Z", "stubbing", "-Z", "function-contracts", "-Z", "concrete-playback",
-           "--concrete-playback=print", "--harness", h["fn"], "--exact"]
+           "--concrete-playback=print", "--harness", h["fq"], "--exact"]
     try:
         p = subprocess.run(cmd, cwd=copy_dir, env=C.offline_env(), capture_output=True, text=True, timeout=h["timeout"])
     except subprocess.TimeoutExpired:
-        return None
-    out = p.stdout
-    m = re.search(r"```\n(.*?)```", out, re.S)
+        return []
+    res = []
+    for m in re.finditer(r"```\n(.*?)```", p.stdout, re.S):
+        t = m.group(1)
+        cm = re.search(r"Check for `(\w+)`: \"(.*?)\"", t)
+        if not cm or cm.group(1) == "cover":
+            continue
+        vals = []
+        for vm in re.finditer(r"vec!\[([\d,\s]*)\]", t.split("concrete_vals", 1)[1]):
+            body = vm.group(1).strip()
+            vals.append([int(x) for x in body.split(",") if x.strip()] if body else [])
+        res.append((cm.group(2), vals))
+    return res
+
+
+def body_params(hfile, fn):
+    """parameter list of the shared body `h_<fn>` and the integer constants of the file"""
+    src = open(hfile).read()
+    consts = {k: int(v) for k, v in re.findall(r"const\s+(\w+)\s*:\s*usize\s*=\s*(\d+)\s*;", src)}
+    m = re.search(r"fn\s+h_" + re.escape(fn) + r"\s*\((.*?)\)\s*(?:->[^{]*)?\{", src, re.S)
     if not m:
-        return None
-    return m.group(1)
+        return None, consts
+    params = []
+    for part in re.split(r",(?![^\[]*\])", m.group(1)):
+        part = part.strip()
+        if not part:
+            continue
+        nm, ty = part.split(":", 1)
+        params.append((nm.strip(), ty.strip()))
+    return params, consts
+
+
+SIZES = {"u8": 1, "u16": 2, "u32": 4, "u64": 8, "u128": 16, "usize": 8, "i32": 4, "i64": 8, "bool": 1}
+
+
+def decode_playback(vals, params, consts):
+    """-> (list of rust literals, dict for JSON) or None when the vector shapes do not fit"""
+    lits, js = [], {}
+    k = 0
+    for nm, ty in params:
+        am = re.match(r"\[\s*u8\s*;\s*(\w+)\s*\]", ty)
+        if am:
+            n = consts.get(am.group(1)) if not am.group(1).isdigit() else int(am.group(1))
+            if n is None or k + n > len(vals):
+                return None
+            bs = []
+            for v in vals[k:k + n]:
+                if len(v) != 1:
+                    return None
+                bs.append(v[0])
+            k += n
+            lits.append("[" + ",".join(str(b) for b in bs) + "]")
+            js[nm] = bytes(bs).hex()
+            continue
+        if ty not in SIZES or k >= len(vals) or len(vals[k]) != SIZES[ty]:
+            return None
+        v = int.from_bytes(bytes(vals[k]), "little")
+        k += 1
+        if ty == "bool":
+            lits.append("true" if v else "false")
+            js[nm] = bool(v)
+        else:
+            lits.append("%d%s" % (v, ty))
+            js[nm] = str(v) if v > 2**53 else v
+    return lits, js
+
+
+def native_replay(tag, appends, target_rel, h, lits, timeout=1500):
+    """run the shared harness body natively (cargo test, debug profile) with concrete arguments.
+    returns (reproduced: bool, excerpt, cmd)"""
+    d = C.repo_copy(tag + "-native")
+    for rel, hfile in appends.items():
+        p = os.path.join(d, rel)
+        cur = open(p).read()
+        if "mod verif_kani" not in cur:
+            with open(p, "w") as f:
+                f.write(cur + "\n" + open(hfile).read() + "\n")
+    p = os.path.join(d, target_rel)
+    cur = open(p).read()
+    cur = re.sub(r"\n#\[cfg\(test\)\]\nmod verif_kani_replay \{.*?\n\}\n", "\n", cur, flags=re.S)
+    modname = h["fq"].split("::")[-2]
+    test = ("\n#[cfg(test)]\nmod verif_kani_replay {\n    #[test]\n    fn replay() {\n        super::%s::h_%s(%s);\n    }\n}\n"
+            % (modname, h["fn"], ", ".join(lits)))
+    with open(p, "w") as f:
+        f.write(cur + test)
+    mp = module_path(target_rel)
+    filt = (mp + "::" if mp else "") + "verif_kani_replay::replay"
+    cmd = ["cargo", "test", "--offline", "--lib", filt, "--", "--exact", "--nocapture"]
+    env = C.test_env()
+    try:
+        pr = subprocess.run(cmd, cwd=d, env=env, capture_output=True, text=True, timeout=timeout)
+    except subprocess.TimeoutExpired:
+        return None, "timeout", " ".join(cmd)
+    out = pr.stdout + "\n" + pr.stderr
+    m = re.search(r"test result: (\w+)\. (\d+) passed; (\d+) failed", out)
+    if not m or (int(m.group(2)) + int(m.group(3))) == 0:
+        return None, out[-1500:], " ".join(cmd)
+    pm = re.search(r"(thread '[^']*'[^\n]*panicked at .*?)(?:\nnote:|\n\n|$)", out, re.S)
+    return int(m.group(3)) > 0, (pm.group(1) if pm else out[-800:]), " ".join(cmd)
